@@ -64,6 +64,8 @@ def generate(rng, kind, n):
     while len(cases) < n:
         if kind == "composeinfo":
             desc = DC.gen_ci(rng, R)["desc"]
+            while len(cases) < 2 and not any(not t[3] for t in desc[3].values()):    # the first two cases are the recorded findings: they need a childless top-level variant
+                desc = DC.gen_ci(rng, R)["desc"]
             if rng.random() < 0.5:
                 desc[1]["is_layered"] = True
                 desc[2] = {"name": "Base", "version": "7", "short": "RHEL", "type": "ga"}
@@ -81,6 +83,9 @@ def generate(rng, kind, n):
                     opts.append(("variant", pos, "arches", [5]))             # documented: a set of architecture NAMES
                 opts.append(("variant", pos, "paths.os_tree", 5))            # documented: arch -> relative path (str)
             where, pos, f, v = rng.choice(opts)
+            if len(cases) < 2:                             # corpus first: the two known findings K4 are replayed on every run
+                want = ("arches", [5]) if len(cases) == 0 else ("paths.os_tree", 5)
+                where, pos, f, v = [o for o in opts if (o[2], o[3]) == want and len(o[1]) == 1 and not desc[3][o[1][0]][3]][0]
             cases.append({"kind": kind, "content": desc, "where": where, "pos": pos, "field": f, "value": v})
         elif kind == "images":
             pool = [OI.gen_image(rng, R, small=False, idx=j) for j in range(3)]
@@ -203,7 +208,28 @@ def to_model(case):
 
 
 # ---- apply the same corruption to the built object (for the implementation)
+_WARM = []
+
+
+def _validate_parents_first():
+    """what validate() checks must not depend on which classes were validated earlier in the process: once per worker, the
+    parent classes are validated before any of their subclasses (the usual flows go the other way round)"""
+    if _WARM:
+        return
+    _WARM.append(1)
+    import productmd.composeinfo as CI
+    import productmd.treeinfo as TI
+    import productmd.common as CO
+    for make in (lambda: CO.MetadataBase(), lambda: CI.ComposeInfo().base_product, lambda: TI.TreeInfo().base_product,
+                 lambda: CI.VariantBase(CI.ComposeInfo()), lambda: TI.TreeInfo().variants):
+        try:
+            make().validate()
+        except Exception:
+            pass
+
+
 def impl(case):
+    _validate_parents_first()
     kind, where, pos, f, v = case["kind"], case["where"], case["pos"], case["field"], case["value"]
     content = case["content"]
     v = copy.deepcopy(v)
